@@ -288,6 +288,87 @@ Example rest_unused_example :
   rest_unused true 0 (Some 2) (Ref 1 (Local 0)) = true.
 Proof. split; reflexivity. Qed.
 
+(* ---- sexp_rest_unused_p as of /repo 7788b66: the set-vars are consulted before usedp *)
+
+Lemma rest_in_sv_In : forall v sv, rest_in_sv (Some v) sv = true <-> In v sv.
+Proof.
+  intros v sv. unfold rest_in_sv. rewrite existsb_exists. split.
+  - intros [x [Hx E]]. apply Nat.eqb_eq in E. subst x. exact Hx.
+  - intros H. exists v. split; [exact H|apply Nat.eqb_refl].
+Qed.
+
+Lemma rest_unused_p_sound : forall id v sv body,
+  rest_unused_p true id (Some v) sv body = true -> mentions id v body = false /\ ~ In v sv.
+Proof.
+  intros id v sv body H. unfold rest_unused_p in H.
+  destruct (rest_in_sv (Some v) sv) eqn:E; [discriminate H|]. split.
+  - exact (rest_unused_sound id v body H).
+  - intro Hin. apply rest_in_sv_In in Hin. congruence.
+Qed.
+
+Lemma rest_unused_p_complete : forall id v sv body,
+  mentions id v body = false -> ~ In v sv -> rest_unused_p true id (Some v) sv body = true.
+Proof.
+  intros id v sv body Hm Hn. unfold rest_unused_p.
+  destruct (rest_in_sv (Some v) sv) eqn:E.
+  - exfalso. apply Hn. apply rest_in_sv_In. exact E.
+  - apply rest_unused_complete. exact Hm.
+Qed.
+
+Lemma lam_flags_sv_nil : forall id r b, lam_flags_sv id r [] b = lam_flags id r b.
+Proof. intros id [x|] b; reflexivity. Qed.
+
+(** the two flag functions agree unless the set-vars list a rest parameter the body never mentions
+    (a stale entry: simplification removed every assignment) *)
+Lemma lam_flags_sv_eq : forall id r sv b,
+  (rest_in_sv r sv = true -> rest_unused true id r b = false) ->
+  lam_flags_sv id r sv b = lam_flags id r b.
+Proof.
+  intros id [x|] sv b H; [|reflexivity]. unfold lam_flags_sv, lam_flags, rest_unused_p.
+  destruct (rest_in_sv (Some x) sv) eqn:E; [|reflexivity]. rewrite (H eq_refl). reflexivity.
+Qed.
+
+Lemma lam_flags_sv_stale : forall id x sv b,
+  rest_in_sv (Some x) sv = true -> lam_flags_sv id (Some x) sv b = PROC_VARIADIC.
+Proof. intros id x sv b E. unfold lam_flags_sv, rest_unused_p. rewrite E. reflexivity. Qed.
+
+(** a procedure flagged UNUSED_REST gets no rest slot from make_call (frame position #fixed then belongs
+    to whatever lies below: a surplus argument or the CALLER's stack); the prologue (vm.c:699-707
+    [box_code]) must therefore never store into slot #fixed: it only touches fixed parameters (0 <= k <
+    #fixed) and internal defines (k < 0). *)
+Lemma unused_rest_prologue_safe : forall id ps v ls sv b k,
+  rest_unused_p true id (Some v) sv b = true ->
+  (forall x, In x sv -> In x (frame_vars ps (Some v) ls)) ->
+  In (ILocalSet k) (box_code ps (Some v) ls sv) ->
+  (0 <= k < Z.of_nat (length ps))%Z \/ (k < 0)%Z.
+Proof.
+  intros id ps v ls sv b k Hu Hsv Hin.
+  destruct (rest_unused_p_sound id v sv b Hu) as [_ Hnot].
+  unfold box_code in Hin. apply in_flat_map in Hin. destruct Hin as [x [Hx Hk]].
+  cbv zeta in Hk. simpl in Hk.
+  destruct Hk as [Hk|[Hk|[Hk|[Hk|[]]]]]; try discriminate Hk.
+  assert (Ek : k = param_index ps (Some v) ls x) by (inversion Hk; reflexivity). clear Hk.
+  destruct (param_index_class ps (Some v) ls x (Hsv x Hx)) as [[i [Hi Pi]]|[[Nx [Rx Pi]]|[Nx [Rx [i [Hi Pi]]]]]].
+  - left. destruct (index_of_some _ _ _ Hi) as [_ Hlt]. lia.
+  - exfalso. inversion Rx. subst x. exact (Hnot Hx).
+  - right. lia.
+Qed.
+
+(** the function before 7788b66 (usedp only) violates it: a stale set-vars entry for the rest parameter
+    ([(lambda (a . r) (if #f (set! r 1)) a)] after simplification) is flagged AND boxed at slot #fixed *)
+Definition stale_sv_lam_body : ast := Ref 1 (Local 0).
+Lemma rest_unused_stale_sv_refuted :
+  rest_unused true 0 (Some 2) stale_sv_lam_body = true /\
+  In (ILocalSet 1%Z) (box_code [1] (Some 2) [] [2]) /\
+  rest_unused_p true 0 (Some 2) [2] stale_sv_lam_body = false.
+Proof. split; [reflexivity|]. split; [simpl; tauto|reflexivity]. Qed.
+
+Example unused_rest_prologue_safe_example :
+  rest_unused_p true 0 (Some 2) [1; 3] stale_sv_lam_body = true /\
+  box_code [1] (Some 2) [3] [1; 3] =
+    [ILocalRef 0%Z; IPush (LSym 1); ICons; ILocalSet 0%Z; ILocalRef (-5)%Z; IPush (LSym 3); ICons; ILocalSet (-5)%Z].
+Proof. split; reflexivity. Qed.
+
 (* ------------------------------------------------------------------ free variables *)
 
 Definition fv_list : list ast -> list vref -> list vref :=
